@@ -89,7 +89,14 @@ fn native_for<G: ark_ec::AffineRepr + 'static>(kind: &str, rp: &serde_json::Valu
         "c03" | "c18" => replay::diff_native::<G>(&shape(), seed, torsion),
         "c16" => scen_c16::enumerate_opt::<G>(rp["max1"].as_u64().unwrap() as usize, rp["max2"].as_u64().unwrap() as usize, seed, |s| Box::new(job::PlainVals::<r1cs::FOf<G>>::new(HashMap::new(), s)), true).1,
         "c04bits" => scen_c04::bitflip_native::<G>(seed, rp["stride"].as_u64().unwrap_or(3) as usize),
-        "c08" => scen_native::c08_native::<G>(seed, rp["maxlen"].as_u64().unwrap_or(3) as usize),
+        "c08" => {
+            let mut v = scen_native::c08_native::<G>(seed, rp["maxlen"].as_u64().unwrap_or(3) as usize);
+            // the child process of the curve this native run is for
+            let tn = std::any::type_name::<G>();
+            let curve = if tn.contains("zorro") { "zorro" } else if tn.contains("ed25519") || tn.contains("curve25519") { "curve25519" } else { "secq256k1" };
+            v.push(c08_child_check(seed, curve));
+            v
+        }
         "c11" => scen_native::c11_native::<G>(seed, torsion),
         "c12" => {
             // several curves in ONE process (a per-process cache shared between curves would show here)
@@ -125,6 +132,17 @@ fn native_for<G: ark_ec::AffineRepr + 'static>(kind: &str, rp: &serde_json::Valu
         }
         _ => replay::c15_native::<r1cs::FOf<G>>(rp["batch"].as_u64().unwrap(), rp["ntrees"].as_u64().unwrap() as usize, seed, m),
     }
+}
+
+/// C08, memory clause: the long-list and inflated-count cases run in a child process with a 3 GB address space
+fn c08_child_check(seed: u64, curve: &str) -> (String, bool) {
+    let exe = std::env::current_exe().unwrap();
+    let r = std::process::Command::new("sh").arg("-c").arg(format!("ulimit -v 3145728; exec {} c08-child --seed {} --curve {}", exe.display(), seed, curve)).output();
+    let (ok, what) = match r {
+        Ok(o) => (o.status.success() && String::from_utf8_lossy(&o.stdout).contains("c08-child ok"), format!("status {:?}; {}", o.status.code(), String::from_utf8_lossy(&o.stderr).lines().last().unwrap_or("").to_string())),
+        Err(e) => (false, format!("{}", e)),
+    };
+    (format!("proofs with two round lists of k = 5..31 entries are decoded, verified and batch-verified, and encodings with inflated list counts are decoded (FormatError), inside a 3 GB address space without the process aborting (child process, {}): {}", curve, what), ok)
 }
 
 fn native_job(prop: &str, name: &str, curve: &str, seed: u64, checks: Vec<(String, bool)>, replay: serde_json::Value) -> Job {
@@ -512,14 +530,7 @@ fn tasks_for(prop: &str, tier: &str, seed: u64) -> Vec<Task> {
                         };
                         let mut checks = checks;
                         if prop == "C08" {
-                            // memory clause: the long-list cases run in a child process with a 3 GB address space
-                            let exe = std::env::current_exe().unwrap();
-                            let r = std::process::Command::new("sh").arg("-c").arg(format!("ulimit -v 3145728; exec {} c08-child --seed {} --curve {}", exe.display(), seed, c)).output();
-                            let (ok, what) = match r {
-                                Ok(o) => (o.status.success() && String::from_utf8_lossy(&o.stdout).contains("c08-child ok"), format!("status {:?}; {}", o.status.code(), String::from_utf8_lossy(&o.stderr).lines().last().unwrap_or("").to_string())),
-                                Err(e) => (false, format!("{}", e)),
-                            };
-                            checks.push((format!("proofs with two round lists of k = 5..31 entries are decoded, verified and batch-verified, and encodings with inflated list counts are decoded (FormatError), inside a 3 GB address space without the process aborting (child process): {}", what), ok));
+                            checks.push(c08_child_check(seed, &c));
                         }
                         native_job(&prop, "native", &c, seed, checks, replay)
                     }),
